@@ -402,7 +402,40 @@ var requests = []request{
 	{"query Q($f: Filter) { byMood(f: $f) { name ... on Dog { barks } } }", map[string]interface{}{"f": map[string]interface{}{"mood": "SLEEPY"}}, []int{8, 3, 7, 1, 2, 9, 0}},
 	{"query Q($s: Boolean!) { pets { name mood @skip(if: $s) ... on Dog @include(if: $s) { barks } friend @include(if: $s) { name } } }", map[string]interface{}{"s": true}, []int{8, 3, 10, 2, 9, 10, 9, 0}},
 	{"{ pets { ...P friend { ...P friend { ...P } } } } fragment P on Pet { name mood ... on Cat { lives } }", nil, []int{8, 3, 5, 2, 9, 9, 9, 0}},
+	// literal siblings: same text up to literal argument values, hence ONE key of a normalising cache; each
+	// request must still be executed with its own literals when several of them miss the cold key together
+	{"{ byMood(m: HAPPY) { name mood } }", nil, []int{8, 3, 1, 2, 9, 0}},
+	{"{ byMood(m: SLEEPY) { name mood } }", nil, []int{8, 3, 1, 2, 9, 0}},
+	{"{ byMood(f: {mood: GRUMPY, min: 1}) { name ... on Dog { barks } } }", nil, []int{8, 3, 7, 1, 2, 9, 0}},
+	{"{ byMood(f: {mood: HAPPY, min: 2}) { name ... on Dog { barks } } }", nil, []int{8, 3, 7, 1, 2, 9, 0}},
+	{"{ byMood(f: {mood: SLEEPY, min: 3}) { name ... on Dog { barks } } }", nil, []int{8, 3, 7, 1, 2, 9, 0}},
 	{"{ pets { nope } }", nil, []int{8, 3, 5}},
+}
+
+// families of requests that share one normalised cache key
+var families = [][]int{{3, 9, 10}, {11, 12, 13}}
+
+func familyOf(qi int) []int {
+	for _, f := range families {
+		for _, x := range f {
+			if x == qi {
+				return f
+			}
+		}
+	}
+	return nil
+}
+
+func sameFamily(a, b int) bool {
+	if a == b {
+		return true
+	}
+	for _, x := range familyOf(a) {
+		if x == b {
+			return true
+		}
+	}
+	return false
 }
 
 func js(r *graphql.Result) string {
@@ -518,6 +551,9 @@ func trial(k int, seed uint64, tier string) report {
 	type op struct{ kind, qi int }
 	progs := make([][]op, n)
 	firstQ := r.intn(len(requests) - 1) // most goroutines start on the same cold query
+	if r.intn(3) == 0 {
+		firstQ = families[r.intn(len(families))][0] // ... or on literal siblings of one normalised key
+	}
 	for g := range progs {
 		m := 2 + r.intn(4)
 		for j := 0; j < m; j++ {
@@ -538,6 +574,12 @@ func trial(k int, seed uint64, tier string) report {
 				o.qi = firstQ
 				if o.kind > 2 {
 					o.kind = 2
+				}
+				if fam := familyOf(firstQ); fam != nil { // siblings meet on the cold key through the cache
+					o.qi = fam[r.intn(len(fam))]
+					if r.intn(4) != 0 {
+						o.kind = 1
+					}
 				}
 			}
 			if o.kind == 2 && o.qi == len(requests)-1 {
@@ -571,7 +613,7 @@ func trial(k int, seed uint64, tier string) report {
 			}()
 			<-start
 			for j, o := range progs[g] {
-				if j == 0 && o.qi == firstQ {
+				if j == 0 && sameFamily(o.qi, firstQ) {
 					atomic.AddInt32(&cold, 1)
 				}
 				out, sum := issue(o.kind, requests[o.qi], &schema, cache, shared, o.qi)
